@@ -39,6 +39,13 @@ def tree_hash(repo):
             h.update(b"<missing>")
         h.update(b"\0")
     h.update(os.path.abspath(repo).encode())
+    # facts also depend on the extractors themselves
+    for tool in (MIRFACTS, GRAMFACTS, SRCFACTS):
+        try:
+            st = os.stat(tool)
+            h.update(("%s:%d:%d" % (tool, st.st_size, int(st.st_mtime))).encode())
+        except OSError:
+            h.update(b"<no tool>")
     return h.hexdigest()[:24]
 
 
